@@ -31,6 +31,7 @@ import (
 func init() {
 	hk.Register("c17", "deathpoints", deathpoints)
 	hk.Register("c17", "realtime", realtime)
+	hk.Register("c17", "takeoverhold", takeoverHold)
 }
 
 const period = 50 * time.Millisecond // lockHeartBeatPeriod of NewGenericRemoteLockFile
@@ -157,6 +158,7 @@ type rtEvent struct {
 	Period   int64  `json:"period"`
 	Load     int    `json:"load"`
 	Held     bool   `json:"held"`
+	Silent   bool   `json:"silentAfterTakeover"` // Recover: the lock won by taking the dead holder's lock over gave no sign of life for four periods while it was held (and the control heartbeat did)
 	Note     string `json:"note,omitempty"`
 }
 
@@ -192,6 +194,9 @@ func realtime(a *hk.Args) error {
 		dies := rng.Intn(3) != 0
 		// every third round: one write of the live holder's heartbeat fails (a transient I/O error: no file descriptor left, a
 		// hiccup of the shared filesystem); the holder lives on and so must its sign of life
+		if id%3 == 1 && hold < 10 {
+			hold = 10 + rng.Intn(10)
+		}
 		if id%3 == 0 && hold < 14 {
 			hold = 14 + rng.Intn(10) // rounds in which the holder sweeps over its own lock: long enough for a stopped heartbeat to show
 		}
@@ -318,6 +323,25 @@ func oneRealtimeRound(id int, scratch string, holdPeriods, load, observers int, 
 	rng := rand.New(rand.NewSource(seed))
 	var owg sync.WaitGroup
 	obsStop := make(chan struct{})
+	if id%3 == 1 {
+		// observers with transient trouble: now and then the listing of the lock directory by the first observer fails (an I/O error,
+		// no file descriptor left) although the directory itself can be examined
+		owg.Add(1)
+		go func() {
+			defer owg.Done()
+			for {
+				select {
+				case <-obsStop:
+					return
+				case <-time.After(period):
+				}
+				if holderGone.Load() {
+					return // the trouble is over before the death: what is said about a dead holder's lock is said by observers that can read
+				}
+				gate.FailNext(fsgate.FailWhen{Key: "obs0", Op: "Open", Suffix: filepath.Base(lockDir)})
+			}
+		}()
+	}
 	if id%3 == 0 {
 		// housekeeping by the holder itself: it runs IsStale / ReleaseIfStale over its own, live, lock object now and then
 		owg.Add(1)
@@ -386,6 +410,7 @@ func oneRealtimeRound(id int, scratch string, holdPeriods, load, observers int, 
 	if dies {
 		hcancel() // the holder and its heartbeat writer stop; the lock directory stays behind
 		holderGone.Store(true)
+		gate.ClearFailNext()
 		emit(rtEvent{Op: "Died", T: now()})
 		time.Sleep(2*period + 120*time.Millisecond)
 		close(obsStop)
@@ -422,6 +447,29 @@ func oneRealtimeRound(id int, scratch string, holdPeriods, load, observers int, 
 		default:
 			e.Note = "overriding LockWithTimeout"
 			if err = rec.LockWithTimeout(context.Background(), 3*time.Second); err == nil {
+				// the lock won by the take-over is a lock like any other: held, it stays alive
+				stamp := func() int64 {
+					newest := int64(0)
+					for _, p := range []string{lockDir, hbFile} {
+						if fi, serr := os.Stat(p); serr == nil && fi.ModTime().UnixNano() > newest {
+							newest = fi.ModTime().UnixNano()
+						}
+					}
+					return newest
+				}
+				time.Sleep(period)
+				m1, t1 := stamp(), now()
+				time.Sleep(4 * period)
+				m2, t2 := stamp(), now()
+				ctlBeats := 0
+				mu.Lock()
+				for _, x := range evs {
+					if x.Op == "Ctl" && x.T > t1 && x.T < t2 {
+						ctlBeats++
+					}
+				}
+				mu.Unlock()
+				e.Silent = m2 == m1 && ctlBeats >= 2
 				_ = rec.Unlock(context.Background())
 			}
 		}
@@ -526,4 +574,105 @@ func oneRealtimeRound(id int, scratch string, holdPeriods, load, observers int, 
 		}
 	}
 	return evs, nil
+}
+
+// ---- take-over, then hold (real time) -------------------------------------------------------------------
+//
+// A dies holding the lock; once it is stale an overriding B takes it over (TryLock / Lock / LockWithTimeout in turn) and
+// HOLDS it; four periods later an overriding C tries: B is alive and has never released, C must be refused.  A control
+// heartbeat with the documented period runs meanwhile; a window in which it made fewer than three beats says nothing.
+
+type takeoverEvent struct {
+	Op       string `json:"op"`
+	ID       int    `json:"id"`
+	How      string `json:"how"`
+	Acquired string `json:"acquiredB"` // result kind of B's acquisition ("" = success)
+	ResultC  string `json:"resultC"`   // result kind of C's TryLock ("" = C holds the lock too)
+	CtlBeats int    `json:"ctlBeats"`
+	StaleB   bool   `json:"staleSeenByC"`
+}
+
+func takeoverHold(a *hk.Args) error {
+	w, err := hk.NewWriter(a.Out)
+	if err != nil {
+		return err
+	}
+	defer w.Close()
+	n := a.N
+	if n == 0 {
+		n = 3
+	}
+	for id := 1; id <= n; id++ {
+		dir, err := os.MkdirTemp(a.Dir, "c17t-")
+		if err != nil {
+			return err
+		}
+		lockRoot := filepath.Join(dir, "locks")
+		_ = os.MkdirAll(lockRoot, 0o755)
+		mk := func(override bool) filesystem.ILock {
+			vfs := filesystem.NewStandardFileSystem().(*filesystem.VFS)
+			return filesystem.NewGenericRemoteLockFile(vfs, "rt", lockRoot, override)
+		}
+		ev := takeoverEvent{Op: "TakeoverHold", ID: id, How: []string{"TryLock", "Lock", "LockWithTimeout"}[id%3]}
+		actx, acancel := context.WithCancel(context.Background())
+		holderA := mk(false)
+		if err := holderA.TryLock(actx); err != nil {
+			acancel()
+			_ = os.RemoveAll(dir)
+			return fmt.Errorf("take-over round %d: A could not acquire a free lock: %w", id, err)
+		}
+		time.Sleep(2 * period)
+		acancel() // A dies: its heartbeat stops, the lock directory stays
+		time.Sleep(2*period + 80*time.Millisecond)
+		b := mk(true)
+		bctx, bcancel := context.WithTimeout(context.Background(), 3*time.Second)
+		switch ev.How {
+		case "TryLock":
+			err = b.TryLock(bctx)
+		case "Lock":
+			err = b.Lock(bctx)
+		default:
+			err = b.LockWithTimeout(context.Background(), 3*time.Second)
+		}
+		ev.Acquired = hk.Kind(err)
+		if err == nil {
+			// control heartbeat over the window in which B holds
+			stop := make(chan struct{})
+			var beats atomic.Int32
+			go func() {
+				f := filepath.Join(lockRoot, "control.lock")
+				for {
+					select {
+					case <-stop:
+						return
+					default:
+					}
+					t := time.Now()
+					_ = os.WriteFile(f, []byte("alive"), 0o644)
+					_ = os.Chtimes(f, t, t)
+					beats.Add(1)
+					select {
+					case <-stop:
+						return
+					case <-time.After(period - time.Millisecond):
+					}
+				}
+			}()
+			time.Sleep(4 * period)
+			c := mk(true)
+			ev.StaleB = c.IsStale()
+			cerr := c.TryLock(context.Background())
+			ev.ResultC = hk.Kind(cerr)
+			close(stop)
+			ev.CtlBeats = int(beats.Load())
+			if cerr == nil {
+				_ = c.Unlock(context.Background())
+			}
+			_ = b.Unlock(context.Background())
+		}
+		bcancel()
+		w.Write(ev)
+		_ = os.RemoveAll(dir)
+	}
+	return nil
 }
